@@ -18,12 +18,12 @@ Corpus == JsonDeserialize(IOEnv.CORPUS_FILE)
 MCTypes == Corpus.types
 Progs == Corpus.progs
 \* modes "given" / "givenbytes": cases recorded by the harness (pattern V): [p, obj, san0] / [p, data, ch0]; cid = index of the case
-Cases == IF MODE \in {"given", "givenbytes"} THEN JsonDeserialize(IOEnv.CASES_FILE) ELSE <<>>
+Cases == IF MODE \in {"given", "givenrt", "givenbytes"} THEN JsonDeserialize(IOEnv.CASES_FILE) ELSE <<>>
 vars == <<w, stack, status, exc, fuel, result, r, dstack, dstatus, dexc, dfuel, dresult, phase, p, san0, fuel0, ch0, dfuel0, cid, inv>>
 meta == <<p, san0, fuel0>>
 
 TinyDoms == [byte |-> {L(255)}, char |-> {L(1)}, short |-> {L(64008)}, three |-> {L(3)}, int |-> {L(4)}, strs |-> {<<98, 99>>}, alpha |-> {97},
-             counts |-> {0, 2}, blobs |-> {<<7, 1>>}, unrec |-> L(7), strict |-> TRUE]
+             counts |-> {0, 2}, blobs |-> {<<7, 1>>}, unrec |-> L(7), strict |-> FALSE]
 MCDoms == IF MODE = "mut" THEN TinyDoms ELSE IF RICH
   THEN [byte |-> {L(0), L(1), L(254), L(255)}, char |-> {L(0), L(1), L(252)}, short |-> {L(0), L(253), L(64008)},
         three |-> {L(0), L(64009), <<247, 6884>>}, int |-> {L(0), <<247, 6885>>, LSub(INT_MAX_L, <<0, 1>>)},
@@ -40,7 +40,7 @@ ByteStrings(n) == UNION {[1..k -> {0, 1, 2, 254, 255}] : k \in 0..n}
 Init ==
   /\ inv = [what |-> "", stray |-> FALSE]
   /\ fuel0 \in FUELS
-  /\ IF MODE = "given"
+  /\ IF MODE \in {"given", "givenrt"}
      THEN /\ cid \in 1..Len(Cases) /\ p = Cases[cid].p /\ phase = "ser" /\ san0 = Cases[cid].san0 /\ ch0 = FALSE /\ dfuel0 = -1
           /\ SInit(Progs[p].code, Progs[p].name, Given(Cases[cid].obj), san0, fuel0)
           /\ r = Idle.r /\ dstack = Idle.dstack /\ dstatus = Idle.dstatus /\ dexc = Idle.dexc /\ dfuel = Idle.dfuel /\ dresult = Idle.dresult
@@ -49,7 +49,7 @@ Init ==
           /\ w = [bytes |-> <<>>, san |-> FALSE] /\ stack = <<>> /\ status = "idle" /\ exc = "" /\ fuel = -1 /\ result = NoneV
           /\ DInit(Cases[cid].data, Progs[p].code, Progs[p].name, ch0, dfuel0)
      ELSE /\ cid = 0 /\ p \in {i \in 1..Len(Progs) : MODE # "rt" \/ Progs[i].rt}
-  /\ IF MODE \in {"given", "givenbytes"} THEN TRUE ELSE IF MODE = "bytes"
+  /\ IF MODE \in {"given", "givenrt", "givenbytes"} THEN TRUE ELSE IF MODE = "bytes"
      THEN /\ phase = "de" /\ san0 = FALSE /\ ch0 \in BOOLEAN /\ dfuel0 \in DFUELS
           /\ w = [bytes |-> <<>>, san |-> FALSE] /\ stack = <<>> /\ status = "idle" /\ exc = "" /\ fuel = -1 /\ result = NoneV
           /\ \E data \in ByteStrings(MAXBYTES) : DInit(data, Progs[p].code, Progs[p].name, ch0, dfuel0)
@@ -60,7 +60,7 @@ Init ==
 Subst(s, i, b) == [s EXCEPT ![i] = b]
 Insert(s, i, b) == SubSeq(s, 1, i - 1) \o <<b>> \o SubSeq(s, i, Len(s))
 Corruptions(s) ==
-  IF MODE = "rt" THEN {s}
+  IF MODE \in {"rt", "givenrt"} THEN {s}
   ELSE IF LIGHT THEN {s} \cup {SubSeq(s, 1, k) : k \in 0..(Len(s) - 1)} \cup {Subst(s, i, b) : i \in 1..Len(s), b \in {0, 255}}
                      \cup {Insert(s, i, 254) : i \in 1..(Len(s) + 1)} \cup {s \o <<1, 255, 1>>}
   ELSE {s} \cup {SubSeq(s, 1, k) : k \in 0..(Len(s) - 1)}
@@ -90,9 +90,9 @@ ToInvalid == /\ phase = "ser" /\ status = "done" /\ exc = "" /\ MODE = "invalid"
                        /\ status' = "running" /\ exc' = "" /\ fuel' = -1 /\ result' = ms[k].obj
              /\ phase' = "ser2"
              /\ UNCHANGED <<r, dstack, dstatus, dexc, dfuel, dresult, p, san0, fuel0, ch0, dfuel0, cid>>
-ToDeser == /\ phase = "ser" /\ status = "done" /\ exc = "" /\ MODE \in {"rt", "hostile"}
+ToDeser == /\ phase = "ser" /\ status = "done" /\ exc = "" /\ MODE \in {"rt", "hostile", "givenrt"}
            /\ phase' = "de"
-           /\ \E data \in Corruptions(w.bytes) : \E c \in (IF MODE = "rt" \/ LIGHT THEN {FALSE} ELSE BOOLEAN) : \E df \in DFUELS :
+           /\ \E data \in Corruptions(w.bytes) : \E c \in (IF MODE \in {"rt", "givenrt"} \/ LIGHT THEN {FALSE} ELSE BOOLEAN) : \E df \in DFUELS :
                 ch0' = c /\ dfuel0' = df /\ SetDeser(DStartState(data, Progs[p].code, Progs[p].name, c, df))
            /\ UNCHANGED <<w, stack, status, exc, fuel, result, p, san0, fuel0, cid, inv>>
 deIdle == <<w, stack, status, exc, fuel, result, phase, p, san0, fuel0, ch0, dfuel0, cid, inv>>
@@ -126,7 +126,7 @@ PTerminates == <>(phase = "de" => dstatus \in {"done", "bound"})
 
 SerRec == [kind |-> "ser", cid |-> cid, prog |-> Progs[p].name, san0 |-> san0, fuel |-> fuel0, exc |-> exc, bytes |-> w.bytes, san_end |-> w.san, obj |-> result]
 DeRec == [kind |-> "de", cid |-> cid, prog |-> Progs[p].name, data |-> r.data, ch0 |-> ch0, dfuel |-> dfuel0, status |-> dstatus, exc |-> dexc, pos |-> r.pos,
-          ch_end |-> r.chunked, obj |-> dresult, src |-> result, rt_ok |-> (MODE = "rt" /\ RoundTripHere)]
+          ch_end |-> r.chunked, obj |-> dresult, src |-> result, rt_ok |-> (MODE \in {"rt", "givenrt"} /\ RoundTripHere)]
 \* C19 on the model: whatever the history, the instance and its serialization are what they were (action property)
 PImmutable == [][(phase = "mut" /\ phase' = "mut") => (result' = result /\ w' = w)]_vars
 MutRec == [kind |-> "mut", prog |-> Progs[p].name, obj |-> result, bytes |-> w.bytes, hist |-> inv.hist]
